@@ -68,6 +68,8 @@ type NodeOpts struct {
 	DABlockTime   time.Duration
 	LazyInterval  time.Duration
 	MempoolTTL    uint64
+	// CustomPayload: the chain signs headers over a payload of its own (ManagerOptions.SignaturePayloadProvider)
+	CustomPayload bool
 	DAStartHeight uint64
 	RootDir       string
 	GenesisTime   time.Time
@@ -145,8 +147,12 @@ func NewNode(ctx context.Context, o NodeOpts, k Keys, dsp *MemDS, exec coreexecu
 	if o.Aggregator {
 		sg = k.Signer
 	}
+	mopts := block.DefaultManagerOptions()
+	if o.CustomPayload {
+		mopts.SignaturePayloadProvider = CustomSignaturePayload
+	}
 	m, err := block.NewManager(ctx, sg, cfg, gen, n.Store, exec, seq, da, logging.Logger("verif"),
-		n.HStore, n.DStore, n.HB, n.DB, block.NopMetrics(), 1.0, 1.5, block.DefaultManagerOptions())
+		n.HStore, n.DStore, n.HB, n.DB, block.NopMetrics(), 1.0, 1.5, mopts)
 	if err != nil {
 		return nil, err
 	}
@@ -167,3 +173,12 @@ func TempDir(root, pattern string) string {
 
 // EventChannelCapacity is the capacity of the manager's header/data event channels.
 func EventChannelCapacity() int { return block.VerifEventInChLength() }
+
+// CustomSignaturePayload is a non-default signature payload: a tag plus the header's encoding.
+func CustomSignaturePayload(h *types.Header) ([]byte, error) {
+	b, err := h.MarshalBinary()
+	if err != nil {
+		return nil, err
+	}
+	return append([]byte("verif-custom-payload|"), b...), nil
+}
